@@ -63,6 +63,15 @@ func blockFacts(b *ssa.BasicBlock, iff *ssa.If, atoms []*Atom) []EdgeFact {
 	var out []EdgeFact
 	{
 		cond, neg := StripNot(iff.Cond)
+		// a condition handed in as a boolean parameter of a helper is the expression the
+		// caller computed
+		if rc := resolveBoundary(cond); rc != cond {
+			c2, n2 := StripNot(rc)
+			cond = c2
+			if n2 {
+				neg = !neg
+			}
+		}
 		{
 			ec, restore := ExpandCond(cond)
 			if ec != cond {
@@ -250,6 +259,13 @@ func edgeFactsX(fn *ssa.Function, atoms ...*Atom) ([]EdgeFact, []disjFact) {
 func blockShortCircuit(b *ssa.BasicBlock, iff *ssa.If, atoms []*Atom) ([]EdgeFact, *disjFact) {
 	var out []EdgeFact
 	cond, neg := StripNot(iff.Cond)
+	if rc := resolveBoundary(cond); rc != cond {
+		c2, n2 := StripNot(rc)
+		cond = c2
+		if n2 {
+			neg = !neg
+		}
+	}
 	ec, restore := ExpandCond(cond)
 	defer restore()
 	if ec != cond {
@@ -276,6 +292,13 @@ func blockShortCircuit(b *ssa.BasicBlock, iff *ssa.If, atoms []*Atom) ([]EdgeFac
 	d := disjFact{E: Edge{b, disEdge}}
 	for _, part := range parts {
 		pc, pneg := StripNot(part)
+		if rc := resolveBoundary(pc); rc != pc {
+			c2, n2 := StripNot(rc)
+			pc = c2
+			if n2 {
+				pneg = !pneg
+			}
+		}
 		var members []EdgeFact
 		for _, a := range atoms {
 			onT, onF := a.Match(pc)
